@@ -40,8 +40,33 @@ def run(chk):
     X.apply(chk, fx, tr, FILE, 'C23-K4', EXCEPTIONS)
     shadow_rule(chk, fx, fn)
     use_rule(chk, fx)
+    scope_rule(chk, fx, fn)
     return ('Visitor-completeness over OwnershipChecker::check_expr (same engine as C22). Decides "every use position is visited"; '
             'which positions move a value and scoping are not decided.'), {}
+
+
+def scope_rule(chk, fx, fn):
+    chk.rule('C23-params', 'every scope the ownership checker opens for a subroutine knows the parameters of that subroutine: the Lambda arm of check_expr defines the same parameter '
+                           'groups (non-default, *args, default, **kwargs) as the Def arm — OwnershipChecker::drop panics on a variable no scope knows, so moving a lambda parameter '
+                           'crashed the checker')
+    counts = {}
+    for m in T.walk(fn['body']):
+        if m.get('k') != 'Match':
+            continue
+        for arm in m['arms']:
+            vs = [v.split('::')[-1] for v in T.pat_variants(arm['pat']) if '::Expr::' in v]
+            for v in vs:
+                if v in ('Def', 'Lambda') and v not in counts:
+                    opens = any(c.get('k') == 'MCall' and c['n'] == 'push' and 'path_stack' in T.show(T.peel(c['r'])) for c in T.calls(arm['b']))
+                    counts[v] = (len([c for c in T.calls(arm['b']) if c.get('k') == 'MCall' and c['n'] == 'define_param']), opens, arm['l'])
+    if not chk.need('Def' in counts and 'Lambda' in counts, 'check_expr: the Def / Lambda arms were not found'):
+        return
+    d, l = counts['Def'], counts['Lambda']
+    if l[1] and l[0] < d[0]:
+        chk.bad('C23-params', 'OwnershipChecker::check_expr', 'lambda-params', 'the Lambda arm opens a scope and defines %d parameter group(s) in it, the Def arm %d: a lambda parameter that is '
+                'moved (`for! xs, x =>` with `w = x`) is unknown to every scope and OwnershipChecker::drop panics' % (l[0], d[0]), FILE, l[2])
+    else:
+        chk.ok('C23-params', 'Lambda', sample='Lambda arm: %d define_param call(s), Def arm: %d' % (l[0], d[0]))
 
 
 def use_rule(chk, fx):
